@@ -81,3 +81,24 @@ huffman_harness!(n1, 1, 6);
 huffman_harness!(n2, 2, 8);
 huffman_harness!(n3, 3, 10);
 huffman_harness!(n4, 4, 12);
+
+/// C15 (bounded: 3 symbols, f32 weights, every non-NaN bit pattern): encoder and decoder trees
+/// built from the same float weights describe the same code (decoder inverts encoder); NaN is refused.
+#[cfg_attr(kani, kani::proof)]
+#[cfg_attr(kani, kani::unwind(10))]
+pub fn f32_n3() {
+    let w: [f32; 3] = [any(), any(), any()];
+    let e = EncoderHuffmanTree::from_float_probabilities::<f32, _>(&w);
+    let d = DecoderHuffmanTree::from_float_probabilities::<f32, _>(&w);
+    let nan = w[0].is_nan() || w[1].is_nan() || w[2].is_nan();
+    assert!(e.is_err() == nan && d.is_err() == nan, "C15: float codebooks must be refused exactly for NaN weights");
+    if let (Ok(enc), Ok(dec)) = (e, d) {
+        let s: usize = any(); assume(s < 3);
+        let mut pre = [false; 3]; let mut lp = 0usize;
+        enc.encode_symbol_prefix(s, |b| { pre[lp] = b; lp += 1; Result::<(), Infallible>::Ok(()) }).ok();
+        assert!(lp >= 1 && lp <= 2, "C15: impossible code length");
+        let mut used = 0usize;
+        let r = dec.decode_symbol(core::iter::from_fn(|| { if used < lp { used += 1; Some(Result::<bool, Infallible>::Ok(pre[used - 1])) } else { None } }));
+        match r { Ok(x) => assert!(x == s && used == lp, "C15: float decoder tree does not invert the float encoder tree"), Err(_) => assert!(false, "C15: decoding a float codeword failed") }
+    }
+}
